@@ -125,7 +125,15 @@ def eval_count(stream, istream, fn, kw):
     return (exp, obs)
 
 
+def check_long(case):
+    acc = core.Acc()
+    explore_shard(acc, ("long", case["index"], case.get("thorough", False)))
+    return [{"clause": v["clause"], "expected": v.get("expected"), "observed": v.get("observed")} for v in acc.violations]
+
+
 def check_case(case):
+    if case["kind"] == "long":
+        return check_long(case)
     stream = parse_stream(case["stream"])
     istream = [N.to_impl(n) for n in stream]
     if case["kind"] == "group-defaults":
@@ -323,6 +331,36 @@ def explore_shard(acc, shard):
         else:
             acc.count("transitions")
             rec(list(prefix))
+    elif kind == "long":
+        _, idx, thorough = shard
+        label, cols, stream = N.long_streams(thorough)[idx]
+        layer = "L long streams"
+        istream = [N.to_impl(x) for x in stream]
+        case = {"kind": "long", "index": idx, "thorough": thorough, "label": label}
+        core.guard(acc, case)
+        n = 0
+        incs = [tuple(M.ALL_TYPES), tuple(M.STEP_TYPES), (M.HOLD, M.ROLL, M.TAIL)]
+        for inc in incs:
+            for mode in N.MODES:
+                for cfg in [(inc, mode, False, M.RAISE, M.RAISE), (inc, mode, True, M.KEEP, M.KEEP), (inc, mode, True, M.DROP, M.DROP), (inc, mode, True, M.RAISE, M.RAISE)]:
+                    core.guard(acc, dict(case, cfg=core.jsonable(cfg)))
+                    r = eval_group(stream, istream, *cfg)
+                    n += 1
+                    if r is not None:
+                        acc.violation("group_notes output differs from the documented rules (long stream)", dict(case, cfg=core.jsonable(cfg)),
+                                      "model (" + str(len(r[0][1])) + " groups)" if r[0][0] == "ok" else r[0], r[1] if r[1][0] != "ok" else f"{len(r[1][1])} groups, first difference at " + str(next((i for i, (a, b) in enumerate(zip(r[0][1], r[1][1])) if a != b), "the end")),
+                                      signature=("long-group", cfg[1], cfg[2]))
+        for fn, kw in count_configs([], []) + [("count_steps", {"include": inc, "mode": m, "minimum": k}) for inc in incs for m in N.MODES for k in (1, 2, 3)]:
+            r = eval_count(stream, istream, fn, kw)
+            n += 1
+            if r is not None:
+                acc.violation(f"{fn} differs from the documented count (long stream)", dict(case, fn=fn, kw=core.jsonable(kw)), r[0], r[1], signature=("long-count", fn))
+        acc.count("evaluations", n)
+        acc.count("states")
+        acc.count("transitions")
+        acc.count("nontrivial")
+        acc.outcome("long stream")
+        acc.sample(layer, {"label": label, "notes": len(stream)})
     elif kind == "corpus":
         _, idx = shard
         name, sf, chart = N.corpus_charts()[idx]
@@ -368,6 +406,7 @@ def explore(run):
     # second beat layout for grid A: rows inside one measure vs across measures
     ncorpus = len(N.corpus_charts())
     shards += [("corpus", i) for i in range(ncorpus)]
+    shards += [("long", i, run.thorough()) for i in range(len(N.long_streams(run.thorough())))]
     # rotate shard order by seed (enumeration is complete for every seed)
     k = run.seed % len(shards)
     shards = shards[k:] + shards[:k]
@@ -379,12 +418,14 @@ def explore(run):
         + "; every node checked under every subset of the grid's note types x 3 same-beat modes x "
         "(join off + join on x 3x3 orphan policies) and all count_* option combinations; plus every corpus chart. "
         "A state is a distinct stream; non-trivial = contains a head/tail or two notes on one beat."
+        + " L: long streams (a hold open over / a roll interrupted after 1023..4097 notes, a tap followed by 2047..2049 two-note rows, three-note rows, 1500 short holds; thorough up to 65537) x 3 include sets x 3 modes x join settings x all counters."
     )
     run.assumptions = [
         "reference model mc/models/notes.py is the specification of grouping/counting",
         "streams are position-sorted single-player streams with at most one note per cell",
         "which of several RAISE-policy orphans is reported first is not claimed",
     ]
+    core.require(acc.outcomes["long stream"] > 0, "no long stream")
     core.require(acc.outcomes["joined pair"] > 0, "no joined pair seen")
     core.require(acc.outcomes["kept orphan"] > 0, "no kept orphan seen")
     core.require(acc.outcomes["dropped orphan"] > 0, "no dropped orphan seen")
